@@ -328,9 +328,10 @@ __in_range_p(struct dt_dt_s now, const struct dseq_clo_s *clo)
 	/* otherwise perform a simple range check */
 	if (clo->dir > 0) {
 		if (clo->fst.t.u < clo->lst.t.u) {
-			/* dseq A B  with A < B */
+			/* dseq A B  with A < B, not beyond midnight,
+			 * carries have kindly been stored in d.u */
 			return now.t.u >= clo->fst.t.u &&
-				now.t.u <= clo->lst.t.u;
+				now.t.u <= clo->lst.t.u && now.d.u == 0U;
 		} else {
 			/* dseq A B  with A > B and wrap-around,
 			 * carries have kindly been stored in d.u */
@@ -338,9 +339,9 @@ __in_range_p(struct dt_dt_s now, const struct dseq_clo_s *clo)
 		}
 	} else if (clo->dir < 0) {
 		if (clo->fst.t.u > clo->lst.t.u) {
-			/* counting down from A to B */
+			/* counting down from A to B, not beyond midnight */
 			return now.t.u <= clo->fst.t.u &&
-				now.t.u >= clo->lst.t.u;
+				now.t.u >= clo->lst.t.u && now.d.u == 0U;
 		} else {
 			/* count down from A to B with wrap around,
 			 * carries have kindly been stored in d.u */
